@@ -37,7 +37,7 @@ MutExtreme == {"deep", "wide", "bigtext", "bigattr", "manyattrs"}
 MutSmall  == AllMuts \ MutExtreme
 EntriesAll == {"mem", "file", "memerr"}
 
-Def == [ctxs |-> AllCtx, names |-> NamesAll, wrong |-> WrongAll, attrdev |-> {"none", "bad"}, textcls |-> {"plain"},
+Def == [ctxs |-> AllCtx, names |-> NamesAll, wrong |-> WrongAll, attrdev |-> AttrClasses \ {"ok"}, textcls |-> {"plain"},
         maxnodes |-> 1, minnodes |-> 0, maxdepth |-> 2, maxodd |-> 1, muts |-> {"none"}, deeps |-> {}, wides |-> {},
         pkparts |-> {}, pkbreaks |-> {}, zips |-> {"ok"}, entries |-> {"mem"}, rich |-> {TRUE}, cross |-> FALSE, battery |-> "std"]
 With(r, f, v) == [r EXCEPT ![f] = v]
@@ -56,9 +56,9 @@ GroupDef(gn) ==
                                      !.muts = MutExtreme, !.deeps = {2000}, !.wides = {8000}]
     [] gn = "q-sim"    -> PkAll([Def EXCEPT !.maxnodes = 9, !.maxdepth = 4, !.maxodd = 3, !.muts = MutSmall, !.textcls = TextAll, !.rich = {TRUE, FALSE}, !.cross = TRUE])
        \* ---- thorough tier
-    [] gn = "t-place2" -> [Def EXCEPT !.maxnodes = 2, !.textcls = {"plain", "ent", "cdata", "comment"}, !.battery = "full"]
+    [] gn = "t-place2" -> [Def EXCEPT !.maxnodes = 2, !.attrdev = {"none", "word", "huge"}, !.textcls = {"plain", "ent", "cdata", "comment"}, !.battery = "full"]
     [] gn = "t-place3" -> [Def EXCEPT !.names = NamesCore, !.attrdev = {}, !.minnodes = 3, !.maxnodes = 3, !.maxdepth = 3]
-    [] gn = "t-odd2"   -> [Def EXCEPT !.names = NamesCore, !.minnodes = 2, !.maxnodes = 2, !.maxodd = 2, !.textcls = TextAll]
+    [] gn = "t-odd2"   -> [Def EXCEPT !.names = NamesCore, !.attrdev = {"none", "neg", "big"}, !.minnodes = 2, !.maxnodes = 2, !.maxodd = 2, !.textcls = TextAll]
     [] gn = "t-mut0"   -> [Def EXCEPT !.maxnodes = 0, !.muts = MutSmall, !.rich = {TRUE, FALSE}, !.entries = {"mem", "file"}]
     [] gn = "t-mut1"   -> [Def EXCEPT !.names = NamesCore, !.attrdev = {}, !.minnodes = 1, !.muts = MutSmall \ {"none"}]
     [] gn = "t-mut2"   -> [Def EXCEPT !.names = NamesMini, !.wrong = WrongMini, !.attrdev = {}, !.minnodes = 2, !.maxnodes = 2, !.muts = MutTags]
@@ -85,13 +85,13 @@ EntriesC == G.entries   RichC == G.rich         Cross == G.cross         Battery
 
 \* the calls made on every opened document, in this order (reads, edits, saves)
 BatteryFull == <<"GetParagraphs", "GetTables", "TableReads", "GetPageSettings", "ListHeadings", "Counts", "StyleReads", "ToBytes",
-                 "AddParagraph", "ParaSetters", "SetCellText", "CellFormat", "InsertRow", "AppendRow", "InsertColumn", "AppendColumn",
+                 "AddParagraph", "ParaSetters", "UnmergeCells", "SetCellText", "CellFormat", "InsertRow", "AppendRow", "InsertColumn", "AppendColumn",
                  "MergeCells", "UnmergeCells", "TableLook", "NestedTable", "CopyTable", "DeleteColumn", "DeleteRow",
                  "PageSetters", "AddHeader", "AddFooter", "AddImage", "CellImage", "AddListItem", "AddFootnote", "AddEndnote",
                  "SetTitle", "AddTable", "TOC", "RemoveParagraphAt", "Template", "ToBytes", "SaveFile">>
 \* the standard battery leaves out the second way of saving and template rendering (they work on the same structures)
 BatteryStd == SelectSeq(BatteryFull, LAMBDA o : o \notin {"SaveFile", "Template", "StyleReads", "CopyTable"})
-BatteryShort == <<"GetParagraphs", "InsertColumn", "ToBytes">>
+BatteryShort == <<"GetParagraphs", "InsertColumn", "ToBytes">>   \* for model checking the relation only
 Battery == IF BatteryName = "full" THEN BatteryFull ELSE IF BatteryName = "std" THEN BatteryStd ELSE BatteryShort
 
 Path == CtxPath[ctx]
